@@ -13,9 +13,12 @@ Req2 == {E("r1", "value", "B", "int", 4), E("r2", "value", "B", "int", 6)}      
 Base == {E("mp", "value", "B", "int", 6), E("n", "value", "B", "int", 10)} \cup Req2
 MP == E("mp", "value", "B", "int", 6)
 NodeCfgs == <<
-  Req2 \cup {MP, E("n", "value", "B", "float", 13), E("a", "value", "P", "int", 100)},      \* 1 healthy, writes a and n; the driver
+  Req2 \cup {MP, E("n", "value", "B", "float", 13), E("a", "value", "P", "int", 100),      \* + both of a common write
+              E("g1", "value", "B", "int", 20), E("g2", "value", "P", "int", 40),           \*   group and both of
+              E("h1", "value", "B", "int", 60), E("h2", "value", "B", "float", 81)},         \*   the h pair      \* 1 healthy, writes a and n; the driver
                                                                                   \*   refuses n = 6.5 (still exactly once)
   Req2 \cup {MP, E("n", "value", "B", "float", 15), E("export", "value", "B", "bool", 0),    \* 2 healthy, not exported, driver bug on n,
+   E("g2", "value", "P", "int", 40), E("h2", "value", "B", "int", 80),             \*   one of each group only,
    E("a", "max", "P", "int", 120), E("b", "value", "B", "int", 10),                \*   limit overrides; the
              E("s", "value", "P", "str", 24), E("s", "max", "P", "int", 64)},       \*   string only fits the overridden maxchars
   Base \cup {E("a", "value", "B", "int", 300)},                                   \* 3 outside (loose)
